@@ -43,7 +43,9 @@ ASSERT == -5           \* (as-built model only) the compiler dies of an internal
 LOCALV == 99
 BOUNDV == 77
 \* "redef": inside (binding [n 77] ...) the Var is def-ed again (same root) and then read: the thread binding stays
-Spellings == {"bare", "al", "fqA", "fqB", "loc", "var", "bind", "redef"}
+\* "fqp": the fully qualified name of the CURRENT namespace's Var, written where a fn parameter of the same name is in
+\* scope -- ((fn [n] CUR/n) 99): a qualified symbol denotes the Var, only bare symbols are shadowed by locals
+Spellings == {"bare", "al", "fqA", "fqB", "loc", "var", "bind", "redef", "fqp"}
 Modes == {"d", "i"}
 
 DefVal(x, n, t) == 100 * IxNs(x) + 10 * IxN(n) + t
@@ -122,6 +124,7 @@ Resolve(n, sp) ==
     [] sp = "var"  -> (IF ResolveBare(n) = RCode(PRIV) THEN RCode(ANY) ELSE ResolveBare(n))   \* (var n) is not a read
     [] sp = "bind" -> ResolveBare(n)
     [] sp = "redef" -> ResolveBare(n)
+    [] sp = "fqp"  -> ResolveIn(cur, n)
 
 (* ------------------------------ what a read may yield -------------------------------- *)
 (* plain Var, direct linking: the value last given by def -- a root mutation may or may not be seen;   *)
@@ -157,6 +160,9 @@ SameVarAllSpellings ==
                       LET r2 == Resolve(n, s2) IN (IsVar(r2) /\ r1[2] = r2[2]) => r1 = r2
 (* locals shadow Vars *)
 LocalsShadow == \A n \in Names : \A m \in Modes : Req(n, "loc", m) = {LOCALV}
+(* a qualified symbol is not shadowed by a local of the same name *)
+QualifiedIgnoresLocals == \A n \in Names : \A m \in Modes :
+                             Req(n, "fqp", m) = Req(n, IF cur = "A" THEN "fqA" ELSE "fqB", m)
 (* a private Var is a compile error from the other namespace, however it is spelled *)
 PrivateUnreachable ==
   \A n \in Names : \A sp \in {"bare", "al", "fqA", "fqB"} : \A m \in Modes :
